@@ -220,11 +220,17 @@ func Replay(path string) int {
 			Model  string          `json:"model"`
 			Params json.RawMessage `json:"params"`
 			Path   []string        `json:"path"`
+			// name of the oracle inside the model when the report renamed it (worlds shared with
+			// another property)
+			ModelOracle string `json:"model_oracle"`
 		} `json:"replay"`
 	}
 	if err := json.Unmarshal(b, &f); err != nil {
 		fmt.Fprintln(os.Stderr, err)
 		return 2
+	}
+	if f.Replay.ModelOracle != "" {
+		f.Oracle = f.Replay.ModelOracle
 	}
 	viol, trace, crashed, err := xstate.ReplayOnce(f.Replay.Model, string(f.Replay.Params), f.Replay.Path)
 	if err != nil {
